@@ -1771,12 +1771,25 @@ def _execute(plan, out, scratch, w, clock, recs):
                 rotations[0] += 1
                 os.rename(vp, vp + ".moved%d" % rotations[0])
                 os.mkdir(vp)
+                # the file handlers still alive apart from the one whose
+                # file cannot be opened (handlers sharing its file left out)
+                others = {k: s0 for k, s0 in _stream_ids(recs, None).items()
+                          if recs[k].ref() is not victim
+                          and getattr(recs[k].ref(), "baseFilename",
+                                      None) != vp}
                 try:
                     loghandler.reopenFiles()
                     probe("reopen-fault-not-raised")
                 except OSError:
                     out["fired"]["reopen-eisdir"] = out["fired"].get(
                         "reopen-eisdir", 0) + 1
+                    # one log file that cannot be reopened does not keep the
+                    # other logs from being reopened: "acts on exactly the
+                    # file handlers still alive"
+                    _check_reopened(recs, others, violation, step, None,
+                                    probe)
+                    if others:
+                        probe("reopen-fault-with-other-live-handlers")
                 except Exception as e:
                     violation("reopen-all", "raised", "reopenFiles() with an "
                               "unusable path raised %s"
@@ -1806,12 +1819,29 @@ def _execute(plan, out, scratch, w, clock, recs):
                 def _enospc():
                     raise OSError(28, "No space left on device (injected)")
                 victim.flush = _enospc
+                others_c = [r for r in recs
+                            if r.kind in ("plain", "size", "timed")
+                            and not r.closed and r.ref() is not None
+                            and r.ref() is not victim]
                 try:
                     loghandler.closeFiles()
                     probe("close-fault-not-reached")
                 except OSError:
                     out["fired"]["close-enospc"] = out["fired"].get(
                         "close-enospc", 0) + 1
+                    # ... and one handler that cannot be flushed does not
+                    # keep the others from being closed
+                    for r in others_c:
+                        hh = r.ref()
+                        if hh is not None and hh.stream is not None:
+                            violation("close-all", "left-open-after-fault",
+                                      "handler %d of logger %d still has an "
+                                      "open stream after closeFiles() failed "
+                                      "for another handler" % (r.hi, r.li),
+                                      step)
+                        del hh
+                    if others_c:
+                        probe("close-fault-with-other-live-handlers")
                 except Exception as e:
                     violation("close-all", "raised", "closeFiles() with a "
                               "full disk raised %s"
@@ -1822,6 +1852,7 @@ def _execute(plan, out, scratch, w, clock, recs):
                     except AttributeError:
                         pass
                 del victim
+                others_c = None
                 for r in recs:
                     hh = r.ref()
                     if hh is not None and getattr(hh, "_closed", False):
